@@ -2455,8 +2455,43 @@ func CutOnce(w *load.World, c *core.Collector) {
 		for _, b := range f.Blocks {
 			for _, in := range b.Instrs {
 				call, ok := in.(*ssa.Call)
-				if !ok || staticName(call) != "strings.Cut" || len(call.Call.Args) != 2 || inLoop(b) {
+				if !ok || staticName(call) != "strings.Cut" || len(call.Call.Args) != 2 {
 					continue
+				}
+				// a loop that cuts its own remainder again walks the whole path; a loop over other
+				// things (one cut per path of a list) does not
+				if inLoop(b) {
+					iterative := false
+					seenP := map[ssa.Value]bool{}
+					var fromOwn func(v ssa.Value, d int)
+					fromOwn = func(v ssa.Value, d int) {
+						if d > 5 || v == nil || seenP[v] {
+							return
+						}
+						seenP[v] = true
+						switch x := v.(type) {
+						case *ssa.Phi:
+							for _, e := range x.Edges {
+								fromOwn(e, d+1)
+							}
+						case *ssa.Extract:
+							if x.Tuple == ssa.Value(call) && x.Index == 1 {
+								iterative = true
+							}
+						case *ssa.UnOp:
+							if al, ok := x.X.(*ssa.Alloc); ok {
+								for _, r := range *al.Referrers() {
+									if st, ok := r.(*ssa.Store); ok && st.Addr == ssa.Value(al) {
+										fromOwn(st.Val, d+1)
+									}
+								}
+							}
+						}
+					}
+					fromOwn(call.Call.Args[0], 0)
+					if iterative {
+						continue
+					}
 				}
 				if sep, ok := ssax.ConstString(call.Call.Args[1]); !ok || sep != "." {
 					continue
